@@ -615,12 +615,29 @@ impl Run {
             "close" => {
                 self.insts[i] = None;
             }
+            // C17: hold the marker persister thread of the CURRENT instance between taking its snapshot and
+            // writing it (gate `tc_before_persist`); only the first thread that arrives is held.
+            "hold_persister" => {
+                persister_gate::arm();
+            }
+            // wait (bounded) until a persister is parked at the gate
+            "await_persister" => {
+                let ok = persister_gate::await_parked(op["ms"].as_u64().unwrap_or(300));
+                self.emit(json!({"ev":"note","what":"persister_parked","ok":ok}));
+            }
+            "release_persister" => {
+                persister_gate::release(op["ms"].as_u64().unwrap_or(40));
+            }
             "reopen" => {
                 // proc = "same": drop and reopen here; "new" is handled by the caller
                 if let Some(d) = op["delay_ms"].as_u64() {
                     std::thread::sleep(std::time::Duration::from_millis(d));
                 }
                 self.insts[i] = None;
+                if op["release_persister"].as_bool().unwrap_or(false) {
+                    // the dropped instance's persister (held since an earlier op) runs now, before the reopen
+                    persister_gate::release(40);
+                }
                 if let Some(d) = op["clock"].as_i64() {
                     if self.clock_ms == 0 {
                         self.clock_ms = 1_700_000_000_000;
@@ -808,4 +825,49 @@ pub fn run_continuation(spec_path: &str) -> i32 {
     run_ops(&mut run, &ops, &spec.out);
     flush_lines(&spec.out, &mut run.lines);
     0
+}
+
+
+/// Gate for the marker persister thread (engine label `tc_before_persist`), used by scripted C17 scenarios.
+pub mod persister_gate {
+    use std::sync::atomic::{AtomicBool, Ordering};
+    use std::time::{Duration, Instant};
+    use walrus_rust::wal::verif;
+
+    static ARMED: AtomicBool = AtomicBool::new(false);
+    static PARKED: AtomicBool = AtomicBool::new(false);
+    static INSTALLED: AtomicBool = AtomicBool::new(false);
+
+    fn hook(label: &'static str) {
+        if label == "tc_before_persist" && ARMED.load(Ordering::SeqCst) && !PARKED.swap(true, Ordering::SeqCst) {
+            let t0 = Instant::now();
+            // never hold longer than 5 s (a scenario that forgets to release must not hang the driver)
+            while ARMED.load(Ordering::SeqCst) && t0.elapsed() < Duration::from_secs(5) {
+                std::thread::sleep(Duration::from_micros(200));
+            }
+        }
+    }
+
+    pub fn arm() {
+        if !INSTALLED.swap(true, Ordering::SeqCst) {
+            verif::set_sched_hook(Some(Box::new(hook)));
+        }
+        PARKED.store(false, Ordering::SeqCst);
+        ARMED.store(true, Ordering::SeqCst);
+    }
+
+    pub fn await_parked(ms: u64) -> bool {
+        let t0 = Instant::now();
+        while !PARKED.load(Ordering::SeqCst) && t0.elapsed() < Duration::from_millis(ms) {
+            std::thread::sleep(Duration::from_micros(500));
+        }
+        PARKED.load(Ordering::SeqCst)
+    }
+
+    pub fn release(settle_ms: u64) {
+        let was = ARMED.swap(false, Ordering::SeqCst);
+        if was {
+            std::thread::sleep(Duration::from_millis(settle_ms));
+        }
+    }
 }
